@@ -628,12 +628,18 @@ def export_svg(drawing, return_path=False, only_layers=None, digits=None, **kwar
         # create a simple path element
         elements.append(f'<path d="{path_string}" {_format_attrib(meta)}/>')
 
+    # a drawing without entities has no bounds: use a unit view box
+    if len(pairs) > 0:
+        bounds, extents = drawing.bounds, drawing.extents
+    else:
+        bounds, extents = np.zeros((2, 2)), np.ones(2)
+
     # format as XML
     if "stroke_width" in kwargs:
         stroke_width = float(kwargs["stroke_width"])
     else:
         # set stroke to something OK looking
-        stroke_width = drawing.extents.max() / 800.0
+        stroke_width = extents.max() / 800.0
     try:
         # store metadata in XML as JSON -_-
         attribs["metadata"] = _encode(drawing.metadata)
@@ -643,10 +649,10 @@ def export_svg(drawing, return_path=False, only_layers=None, digits=None, **kwar
 
     subs = {
         "elements": "\n".join(elements),
-        "min_x": drawing.bounds[0][0],
-        "min_y": drawing.bounds[0][1],
-        "width": drawing.extents[0],
-        "height": drawing.extents[1],
+        "min_x": bounds[0][0],
+        "min_y": bounds[0][1],
+        "width": extents[0],
+        "height": extents[1],
         "stroke_width": stroke_width,
         "attribs": _format_attrib(attribs),
     }
